@@ -62,6 +62,8 @@ T('seq-ext', 'A ::= SEQUENCE { a INTEGER (0..7), ..., b BOOLEAN, c INTEGER (0..3
   feats={'basic', 'seq', 'ext'})
 T('seq-ext-group', 'A ::= SEQUENCE { a BOOLEAN, ..., [[ b INTEGER (0..7), c BOOLEAN OPTIONAL ]], d INTEGER }',
   feats={'seq', 'ext', 'group'})
+T('seq-ext-mixed', 'A ::= SEQUENCE { a BOOLEAN, ..., b INTEGER (0..300), [[ c BOOLEAN, d OCTET STRING (SIZE(0..1)) OPTIONAL ]], '
+  'e NULL }', feats={'seq', 'ext', 'group'})
 T('seq-ext-tail', 'A ::= SEQUENCE { a BOOLEAN, ..., b INTEGER (0..7), ..., z INTEGER (0..3) }',
   feats={'seq', 'ext'})
 T('seq-ext-empty', 'A ::= SEQUENCE { a INTEGER (0..7), ... }', feats={'seq', 'ext'})
